@@ -163,3 +163,28 @@ func H_C02_xfs() {
 	}
 	vCover("C02x.done")
 }
+
+// H_C02_seed: the hash seed itself survives a clean restart for every seed value
+// (crypto/rand is stubbed by a fresh arbitrary value per call in this harness):
+// same seed after reopen, the key is still found.
+func H_C02_seed() {
+	vFlag("freshSeeds", 1)
+	opts := smallOpts(fs.Mem, 2, 20)
+	db, err := Open("c02s", opts)
+	vAssert(err == nil, "C02s.open")
+	if err != nil {
+		return
+	}
+	r := newRef(1, 8)
+	applyOp(db, r, 0, 0, 2, "C02s.put")
+	seed := db.hashSeed
+	vAssert(db.Close() == nil, "C02s.close")
+	db2, err := Open("c02s", opts)
+	vAssert(err == nil, "C02s.reopen")
+	if err != nil {
+		return
+	}
+	vAssert(db2.hashSeed == seed, "C02s.hash-seed-survives-clean-restart")
+	checkReads(db2, r, "C02s.contents")
+	vCover("C02s.done")
+}
